@@ -425,7 +425,10 @@ func execJSON(body string) string {
 		return execDirect(t)
 	}
 	split := first == "1"
-	req, _ := hex.DecodeString(strings.TrimPrefix(t.next(), "x"))
+	req, herr := hex.DecodeString(strings.TrimPrefix(t.next(), "x"))
+	if herr != nil {
+		return "bad-op request-not-hex"
+	}
 	var buf bytes.Buffer
 	ending := "returned"
 	func() {
@@ -813,11 +816,25 @@ func oracleJSON(c *Ctx, id int, body, impl string) {
 		return
 	}
 	split := first == "1"
-	raw, _ := hex.DecodeString(strings.TrimPrefix(t.next(), "x"))
+	raw, herr := hex.DecodeString(strings.TrimPrefix(t.next(), "x"))
+	if herr != nil {
+		return
+	}
 	pl := planRequest(raw)
 	o := parseOutcome(impl)
 	c.Stats.OracleEvals++
-	fail := func(scope, what string) { c.OracleFail(id, scope, what, body) }
+	fail := func(scope, what string) {
+		// main.go cuts the recorded op at 2000 characters: record the short form (split + request bytes; Exec and this
+		// oracle need nothing else) when the full line would be cut in the middle
+		op := body
+		if len(op) > 1900 {
+			op = first + " x" + hex.EncodeToString(raw)
+			if len(op) > 1900 {
+				what += " [request too long for the replay record; re-run with the same seed]"
+			}
+		}
+		c.OracleFail(id, scope, what, op)
+	}
 
 	if pl.decodeErr != "" || pl.desc == nil {
 		scope := "JSON:malformed"
@@ -1517,6 +1534,9 @@ func runBinary(c *Ctx, exe string, id int, raw []byte, body, impl string, pl *js
 		}
 	}
 	toks := docTokens(out.Bytes())
+	if len(body) > 1900 {
+		body = "1 x" + hex.EncodeToString(raw)
+	}
 	switch {
 	case status != 0:
 		c.OracleFail(id, scope, fmt.Sprintf("ow-single exits with status %d; stdout holds %s", status, trunc(strings.SplitN(toks, " ", 2)[0]+" document(s)", 40)), body)
